@@ -69,6 +69,21 @@ class EmitExtract(AcceptExtract):
                      "trim_start_matches", "replacen") and is_string_ty(x.get("rt")):
                 args = ",".join(self.value_text(a, env) for a in x.get("args") or [])
                 return [["xform", "%s(%s)" % (m, args), self.sval(x["recv"], env)]]
+            rv_ = x.get("recv")
+            while isinstance(rv_, dict) and rv_.get("k") == "ref":
+                rv_ = rv_["e"]
+            if m in ("concat", "join") and isinstance(rv_, dict) and rv_.get("k") == "array":
+                # [a, b].concat() / [a, b].join("sep"): the parts one after the other
+                sep = None
+                if m == "join":
+                    sep = lit_val(peel(x["args"][0])) if x.get("args") else ""
+                if m == "concat" or isinstance(sep, str):
+                    out = []
+                    for i_, e_ in enumerate(rv_.get("es") or []):
+                        if i_ and sep:
+                            out.append(self.lit(sep))
+                        out.extend(self.sval(e_, env))
+                    return out
             if m == "join" and x.get("args"):
                 return [["join", self.value_text(x["args"][0], env), self.value_text(x["recv"], env)]]
         if k == "if":
